@@ -20,8 +20,8 @@ import (
 
 func init() {
 	Register(&Rule{ID: "R-CNT-1", Props: []string{"C05"}, Floor: 11,
-		Doc:      "in Processor.ExecuteStatement every argument of FormatCount (the \"N record(s) …\" log lines) and every value stored into Transaction.AffectedRows originates — through phi nodes, element loads and additions only — from the count result (#1, int or []int) of a statement function (signature (*FileInfo|[]*FileInfo, int|[]int, error)); a store to AffectedRows and the log line of the same arm derive from the same call; constants other than the loop-initial 0 (and the literal 1 of RENAME COLUMN) do not enter",
-		Controls: []string{"CtlCountFromElsewhere"},
+		Doc:      "in Processor.ExecuteStatement every argument of FormatCount (the \"N record(s) …\" log lines) and every value stored into Transaction.AffectedRows originates — through phi nodes, element loads and additions only — from the count result (#1, int or []int) of a statement function (signature (*FileInfo|[]*FileInfo, int|[]int, error)); sites inside a lib/query helper that is handed the count (e.g. one helper shared by the INSERT and REPLACE arms) are judged per call of the helper with its parameters replaced by the arguments; a store to AffectedRows and the log line of the same arm derive from the same call; constants other than the loop-initial 0 (and the literal 1 of RENAME COLUMN) do not enter",
+		Controls: []string{"CtlCountFromElsewhere", "CtlCountHelperOffByOne"},
 		Run:      ruleCnt1})
 }
 
@@ -57,7 +57,11 @@ type fxCnt struct {
 	other  []ssa.Value
 }
 
-func fxCountOrigin(v ssa.Value) *fxCnt {
+// subst maps the parameters of a helper the count was handed to back to the
+// arguments at the helper's call site (DML arms merged into a helper such as
+// recordTableChange(fileInfo, cnt, verb)); nil when the site is in the
+// statement dispatcher itself.
+func fxCountOrigin(v ssa.Value, subst map[*ssa.Parameter]ssa.Value) *fxCnt {
 	r := &fxCnt{calls: map[*ssa.Call]bool{}}
 	seen := map[ssa.Value]bool{}
 	var walk func(v ssa.Value)
@@ -67,6 +71,12 @@ func fxCountOrigin(v ssa.Value) *fxCnt {
 		}
 		seen[v] = true
 		switch x := v.(type) {
+		case *ssa.Parameter:
+			if a, ok := subst[x]; ok {
+				walk(a)
+				return
+			}
+			r.other = append(r.other, v)
 		case *ssa.Phi:
 			for _, e := range x.Edges {
 				walk(e)
@@ -195,60 +205,118 @@ func fxCheckCounts(c *Ctx, fn *ssa.Function) {
 		}
 		return true, ""
 	}
-	// statement calls of this function, and what is reported for each
+	// reporting sites: FormatCount calls and AffectedRows stores of this function
+	// and of the lib/query helpers it hands a statement's count to (two levels);
+	// a site in a helper is judged once per call of the helper, with the helper's
+	// parameters replaced by that call's arguments, and is named after the arm the
+	// call sits in — so merging arms into a helper changes neither verdicts nor keys.
+	type site struct {
+		val    ssa.Value
+		at     ssa.Instruction // the site itself (position)
+		anchor ssa.Instruction // instruction of fn that determines the arm
+		subst  map[*ssa.Parameter]ssa.Value
+		isLog  bool
+	}
+	var sites []site
+	var collect func(g *ssa.Function, subst map[*ssa.Parameter]ssa.Value, anchor ssa.Instruction, depth int)
+	collect = func(g *ssa.Function, subst map[*ssa.Parameter]ssa.Value, anchor ssa.Instruction, depth int) {
+		c.Touch(g)
+		for _, b := range g.Blocks {
+			for _, in := range b.Instrs {
+				an := anchor
+				if an == nil {
+					an = in
+				}
+				switch x := in.(type) {
+				case *ssa.Call:
+					if c.P.CalleeName(x) == "lib/query.FormatCount" {
+						c.Sites++
+						sites = append(sites, site{x.Common().Args[0], x, an, subst, true})
+						continue
+					}
+					H := core.StaticCallee(x)
+					if depth == 0 || H == nil || H == g || H == fn || H.Blocks == nil || !c.P.InPkg(H, "lib/query", core.ControlPkg) || fxIsStmtFn(H) {
+						continue
+					}
+					// follow only helpers that receive (something derived from) a statement's count
+					args := x.Common().Args
+					takesCount := false
+					inner := map[*ssa.Parameter]ssa.Value{}
+					for p, a := range subst {
+						inner[p] = a
+					}
+					for i, a := range args {
+						if i >= len(H.Params) {
+							break
+						}
+						inner[H.Params[i]] = a
+						if o := fxCountOrigin(a, subst); len(o.calls) > 0 {
+							takesCount = true
+						}
+					}
+					if takesCount {
+						collect(H, inner, an, depth-1)
+					}
+				case *ssa.Store:
+					fa, ok := x.Addr.(*ssa.FieldAddr)
+					if ok && core.FieldOwner(fa) == "lib/query.Transaction.AffectedRows" {
+						sites = append(sites, site{x.Val, x, an, subst, false})
+					}
+				}
+			}
+		}
+	}
+	collect(fn, nil, nil, 2)
+	via := func(st site) string {
+		if g := st.at.Parent(); g != fn {
+			return " (in helper " + g.Name() + ")"
+		}
+		return ""
+	}
 	logged := map[*ssa.Call]bool{}
 	n := map[string]int{}
-	for _, ci := range core.Calls(fn) {
-		call, ok := ci.(*ssa.Call)
-		if !ok || c.P.CalleeName(call) != "lib/query.FormatCount" {
+	for _, st := range sites {
+		if !st.isLog {
 			continue
 		}
-		c.Sites++
-		o := fxCountOrigin(call.Common().Args[0])
+		o := fxCountOrigin(st.val, st.subst)
 		name, sc := calleeOf(o.calls)
-		arm := fxArmStatement(fn, call)
+		arm := fxArmStatement(fn, st.anchor)
 		n[arm]++
 		key := c.KeyAt(fn, fmt.Sprintf("log line count after %s #%d", arm, n[arm]))
 		// a constant count is legitimate only where the statement function returns no count (RENAME COLUMN: always 1 field)
 		if good, why := judge(o, true); good {
 			if sc != nil {
 				logged[sc] = true
-				c.Ok(key, c.Pos(call), "the printed number is result #1 of "+name)
+				c.Ok(key, c.Pos(st.at), "the printed number is result #1 of "+name+via(st))
 			} else {
-				c.Ok(key, c.Pos(call), "constant count (the statement changes exactly one object)")
+				c.Ok(key, c.Pos(st.at), "constant count (the statement changes exactly one object)")
 			}
 		} else {
-			c.Bad(key, c.Pos(call), "log line \"N … on file\": "+why)
+			c.Bad(key, c.Pos(st.at), "log line \"N … on file\""+via(st)+": "+why)
 		}
 	}
 	m := map[string]int{}
-	for _, b := range fn.Blocks {
-		for _, in := range b.Instrs {
-			st, ok := in.(*ssa.Store)
-			if !ok {
-				continue
-			}
-			fa, ok := st.Addr.(*ssa.FieldAddr)
-			if !ok || core.FieldOwner(fa) != "lib/query.Transaction.AffectedRows" {
-				continue
-			}
-			o := fxCountOrigin(st.Val)
-			if len(o.calls) == 0 && len(o.other) == 0 && len(o.consts) == 1 && o.consts[0] == 0 {
-				continue // a reset to zero reports nothing
-			}
-			name, sc := calleeOf(o.calls)
-			arm := fxArmStatement(fn, st)
-			m[arm]++
-			key := c.KeyAt(fn, fmt.Sprintf("AffectedRows after %s #%d", arm, m[arm]))
-			good, why := judge(o, false)
-			switch {
-			case !good:
-				c.Bad(key, c.Pos(st), "Tx.AffectedRows: "+why)
-			case !logged[sc]:
-				c.Bad(key, c.Pos(st), fmt.Sprintf("Tx.AffectedRows is the count of %s, but the log line of this arm does not print that call's count: the two reports disagree", name))
-			default:
-				c.Ok(key, c.Pos(st), "stored number is (the sum of) result #1 of "+name+", the same call the log line reports")
-			}
+	for _, st := range sites {
+		if st.isLog {
+			continue
+		}
+		o := fxCountOrigin(st.val, st.subst)
+		if len(o.calls) == 0 && len(o.other) == 0 && len(o.consts) == 1 && o.consts[0] == 0 {
+			continue // a reset to zero reports nothing
+		}
+		name, sc := calleeOf(o.calls)
+		arm := fxArmStatement(fn, st.anchor)
+		m[arm]++
+		key := c.KeyAt(fn, fmt.Sprintf("AffectedRows after %s #%d", arm, m[arm]))
+		good, why := judge(o, false)
+		switch {
+		case !good:
+			c.Bad(key, c.Pos(st.at), "Tx.AffectedRows"+via(st)+": "+why)
+		case !logged[sc]:
+			c.Bad(key, c.Pos(st.at), fmt.Sprintf("Tx.AffectedRows is the count of %s, but the log line of this arm does not print that call's count: the two reports disagree", name))
+		default:
+			c.Ok(key, c.Pos(st.at), "stored number is (the sum of) result #1 of "+name+", the same call the log line reports"+via(st))
 		}
 	}
 }
